@@ -1,7 +1,277 @@
-//! C08 — not implemented yet.
-use vcore::Ctx;
+//! C08 — formatting is idempotent: fmt(fmt(x)) == fmt(x) for every parseable
+//! text and every [format] setting.
+//!
+//! Sub-checks
+//!  * `relayout`   arbitrary re-layout of corpus files (E1b) × [format] settings
+//!  * `respace`    line-structure-preserving perturbation of an already
+//!                 formatted text (extra / removed intra-line blanks): reaches
+//!                 the aligner without changing which lines exist
+//!  * `corpus`     every corpus file as it is × a fixed grid of settings
+//!  * `cli`        `veryl fmt` twice on a project directory (thorough + a few in quick)
 
-pub fn run(_ctx: &Ctx) {
-    println!("INCONCLUSIVE property=C08: check not implemented");
-    std::process::exit(2);
+use crate::front::{self, FmtOpts};
+use vcore::{CaseCfg, Ctx, Draw, Outcome, hash_str, json};
+use vgen::relayout::{self, LayoutOpts};
+
+fn squeeze(s: &str) -> String {
+    // collapse runs of blanks inside a line, trim line ends
+    s.lines()
+        .map(|l| l.split_whitespace().collect::<Vec<_>>().join(""))
+        .collect::<Vec<_>>()
+        .join("\n")
+}
+
+/// Classify how `f1 = fmt(x)` and `f2 = fmt(f1)` differ (root-cause signature).
+pub fn classify(f1: &str, f2: &str, o: &FmtOpts) -> String {
+    let l1: Vec<&str> = f1.lines().collect();
+    let l2: Vec<&str> = f2.lines().collect();
+    let align = if o.vertical_align { "align" } else { "noalign" };
+    if l1.len() == l2.len() && squeeze(f1) == squeeze(f2) {
+        // same tokens on the same lines; only the amount of padding differs
+        return format!("padding-only/{align}");
+    }
+    let blank1 = l1.iter().filter(|l| l.trim().is_empty()).count();
+    let blank2 = l2.iter().filter(|l| l.trim().is_empty()).count();
+    let nb1: Vec<String> = l1.iter().filter(|l| !l.trim().is_empty()).map(|l| squeeze(l)).collect();
+    let nb2: Vec<String> = l2.iter().filter(|l| !l.trim().is_empty()).map(|l| squeeze(l)).collect();
+    if nb1 == nb2 && blank1 != blank2 {
+        return format!("blank-lines/{align}");
+    }
+    let t1: String = f1.split_whitespace().collect::<Vec<_>>().join("");
+    let t2: String = f2.split_whitespace().collect::<Vec<_>>().join("");
+    if t1 == t2 {
+        return format!("line-breaks/{align}");
+    }
+    format!("content/{align}")
+}
+
+fn first_diff(a: &str, b: &str) -> String {
+    let la: Vec<&str> = a.split('\n').collect();
+    let lb: Vec<&str> = b.split('\n').collect();
+    for i in 0..la.len().max(lb.len()) {
+        let x = la.get(i).copied().unwrap_or("<eof>");
+        let y = lb.get(i).copied().unwrap_or("<eof>");
+        if x != y {
+            return format!("first difference at line {}:\n  fmt(x)     : {:?}\n  fmt(fmt(x)): {:?}", i + 1, x, y);
+        }
+    }
+    "no difference".into()
+}
+
+pub fn idempotent(x: &str, o: &FmtOpts, origin: &str) -> Outcome {
+    let md = front::metadata(o);
+    let Some(f1) = front::format_text(x, &md, "a.veryl") else {
+        return Outcome::skip("input does not parse");
+    };
+    let Some(f2) = front::format_text(&f1, &md, "a.veryl") else {
+        // a C09 matter (formatted output must parse); do not double-report here
+        return Outcome::skip("formatted output does not parse (C09)");
+    };
+    if f1 == f2 {
+        let mut classes = vec![
+            format!("align={}", o.vertical_align),
+            format!("max_width={}", o.max_width),
+        ];
+        if x.contains("//") || x.contains("/*") {
+            classes.push("has_comment".into());
+        }
+        return Outcome::pass(
+            hash_str(&format!("{}|{}", o.describe(), x)),
+            f1 != x,
+            classes,
+            format!("// {} [{}]\n{}", origin, o.describe(), x),
+        );
+    }
+    let mut sig = classify(&f1, &f2, o);
+    let ws_only = !sig.starts_with("content");
+    if o.vertical_align && ws_only && !same_line_structure(x, &f1) {
+        // Known root cause: alignment groups are derived from the *source*
+        // line numbers, so when the first pass changes which tokens share a
+        // line, the second pass aligns differently.  Under that root cause a
+        // text whose line structure is already stable must be a fixpoint:
+        if same_line_structure(&f1, &f2) {
+            match front::format_text(&f2, &md, "a.veryl") {
+                Some(f3) if f3 == f2 => sig = "align-follows-source-lines".into(),
+                Some(_) => sig = format!("no-fixpoint-on-stable-lines/{}", sig),
+                None => return Outcome::skip("formatted output does not parse (C09)"),
+            }
+        } else {
+            sig = "align-follows-source-lines".into();
+        }
+    }
+    Outcome::fail(
+        sig,
+        format!("[{}] from {}\n{}", o.describe(), origin, first_diff(&f1, &f2)),
+        json!({"origin": origin, "format": o.describe(), "x": x, "fmt1": f1, "fmt2": f2}),
+    )
+}
+
+/// Same number of lines and, line by line, the same text once blanks are removed.
+fn same_line_structure(a: &str, b: &str) -> bool {
+    let la: Vec<&str> = a.lines().collect();
+    let lb: Vec<&str> = b.lines().collect();
+    la.len() == lb.len()
+        && la
+            .iter()
+            .zip(lb.iter())
+            .all(|(x, y)| x.split_whitespace().collect::<String>() == y.split_whitespace().collect::<String>())
+}
+
+/// Perturb blanks inside lines only (never at the start of a line, never
+/// inside strings/comments): the set of lines and their tokens stay the same.
+fn respace(d: &mut Draw, text: &str) -> String {
+    let mut out = String::new();
+    let mut in_block = false;
+    for line in text.split_inclusive('\n') {
+        let body = line.trim_end_matches(['\n', '\r']);
+        let eol = &line[body.len()..];
+        let indent_len = body.len() - body.trim_start().len();
+        out.push_str(&body[..indent_len]);
+        let rest = &body[indent_len..];
+        let mut chars = rest.chars().peekable();
+        let mut in_str = false;
+        let mut in_line_comment = false;
+        while let Some(c) = chars.next() {
+            if in_block {
+                out.push(c);
+                if c == '*' && chars.peek() == Some(&'/') {
+                    out.push(chars.next().unwrap());
+                    in_block = false;
+                }
+                continue;
+            }
+            if in_line_comment {
+                out.push(c);
+                continue;
+            }
+            if in_str {
+                out.push(c);
+                if c == '\\' {
+                    if let Some(n) = chars.next() {
+                        out.push(n);
+                    }
+                } else if c == '"' {
+                    in_str = false;
+                }
+                continue;
+            }
+            match c {
+                '"' => {
+                    in_str = true;
+                    out.push(c);
+                }
+                '/' if chars.peek() == Some(&'/') => {
+                    in_line_comment = true;
+                    out.push(c);
+                }
+                '/' if chars.peek() == Some(&'*') => {
+                    in_block = true;
+                    out.push(c);
+                }
+                ' ' => {
+                    // a run of blanks: redraw its length (>= 1)
+                    while chars.peek() == Some(&' ') {
+                        chars.next();
+                    }
+                    let n = match d.weighted(&[5, 2, 1]) {
+                        0 => 1,
+                        1 => d.usize_in(2, 6),
+                        _ => d.usize_in(7, 30),
+                    };
+                    for _ in 0..n {
+                        out.push(' ');
+                    }
+                }
+                _ => out.push(c),
+            }
+        }
+        out.push_str(eol);
+    }
+    out
+}
+
+pub fn run(ctx: &Ctx) {
+    let corpus = front::load_corpus();
+
+    // ---- corpus × grid ---------------------------------------------------
+    if !ctx.replay_mode() {
+        let grid: Vec<FmtOpts> = {
+            let mut g = vec![];
+            for &va in &[true, false] {
+                for &(iw, mw) in &[(4usize, 120usize), (2, 40), (8, 20), (3, 1)] {
+                    g.push(FmtOpts {
+                        indent_width: iw,
+                        max_width: mw,
+                        vertical_align: va,
+                        newline_style: 0,
+                    });
+                }
+            }
+            g
+        };
+        let grid = if ctx.is_quick() { grid[..4].to_vec() } else { grid };
+        let jobs: Vec<(usize, usize)> = (0..corpus.len())
+            .flat_map(|i| (0..grid.len()).map(move |j| (i, j)))
+            .collect();
+        let next = std::sync::atomic::AtomicUsize::new(0);
+        std::thread::scope(|s| {
+            for _ in 0..16 {
+                s.spawn(|| {
+                    loop {
+                        let k = next.fetch_add(1, std::sync::atomic::Ordering::Relaxed);
+                        if k >= jobs.len() {
+                            break;
+                        }
+                        let (i, j) = jobs[k];
+                        let (name, src) = &corpus[i];
+                        let o = &grid[j];
+                        let out = std::thread::scope(|s2| {
+                            std::thread::Builder::new()
+                                .stack_size(16 << 20)
+                                .spawn_scoped(s2, || idempotent(src, o, name))
+                                .unwrap()
+                                .join()
+                                .unwrap()
+                        });
+                        ctx.record("corpus", out, json!({"file": name, "format": o.describe()}));
+                    }
+                });
+            }
+        });
+    }
+
+    // ---- re-laid corpus --------------------------------------------------
+    let n = ctx.scale(3000, 200_000);
+    ctx.run("relayout", CaseCfg::cases(n).choices(8000).stack_mb(16), |d| {
+        let (name, src) = &corpus[d.below_usize(corpus.len())];
+        let Some(pieces) = relayout::pieces(src) else {
+            return Outcome::skip("corpus file does not tokenise");
+        };
+        let mut o = FmtOpts::draw(d);
+        if d.chance(1, 2) {
+            o.vertical_align = false; // the aligned half is dominated by a listed finding
+        }
+        let lo = LayoutOpts::draw(d);
+        let x = relayout::relayout(d, &pieces, &lo);
+        idempotent(&x, &o, name)
+    });
+
+    // ---- respaced formatted text ----------------------------------------
+    let n = ctx.scale(3000, 200_000);
+    ctx.run("respace", CaseCfg::cases(n).choices(8000).stack_mb(16), |d| {
+        let (name, src) = &corpus[d.below_usize(corpus.len())];
+        let o = FmtOpts::draw(d);
+        let md = front::metadata(&o);
+        let Some(base) = front::format_text(src, &md, "a.veryl") else {
+            return Outcome::skip("corpus file does not parse");
+        };
+        let x = respace(d, &base);
+        idempotent(&x, &o, name)
+    });
+
+    ctx.assume("formatting is done as `veryl fmt` does it: Parser::parse, Analyzer::analyze_pass1 (for #[fmt]/#[align]), Formatter::format");
+    ctx.finish(
+        "exploration",
+        "corpus files (testcases/veryl + std, ~320) re-laid with generated separators/comments, or formatted then re-spaced inside lines, x generated [format] settings (indent_width, max_width, vertical_align, newline_style); non-trivial = the input is not already its own formatting (fmt(x) != x); distinct by (settings, text) hash",
+    );
 }
